@@ -1,14 +1,22 @@
 """C19 - reading, unsorted writing and overlap iteration are incremental."""
 import tempfile
 
+import functools
+
 from .. import filecases, impl, sortcases as SC
 from ..common import exc_name
 from ..runner import Outcome
-from . import c11
+from . import c11, c16
+from .c08 import expected_cmp
 
 LEVEL = "proof"
 ASSUMPTIONS = ["buffering below the handle's write() call (OS / gzip) is not observed: 'emitted' means write() was called on the handle",
-               "spilled records are counted by decoding the spill files in the sorter's temp directory"]
+               "spilled records are counted by decoding the spill files in the sorter's temp directory",
+               "path-based readers: 'pulled' counts the lines requested from the text handle that open() / gzip.open() returned to maflib.reader "
+               "(iteration, readline, or everything a read() / readlines() returned); buffering below that handle (TextIOWrapper, gzip, OS) is not observed",
+               "allele-aware overlap iteration hands out a positional overlap set in several sub-groups: its bound counts, per input, the records of the "
+               "overlap sets up to the one a sub-group has been handed out from (plus the one look-ahead)"]
+PENDING_DEFECTS = []
 
 
 class CountingIter:
@@ -28,45 +36,175 @@ class CountingIter:
         return x
 
 
+class CountingIterable:
+    """An iterable that is not its own iterator (what a list is to the reader): iter() gives a counting iterator."""
+
+    def __init__(self, items):
+        self.it = CountingIter(items)
+
+    def __iter__(self):
+        return self.it
+
+    @property
+    def pulled(self):
+        return self.it.pulled
+
+
+class CountingHandle:
+    """The text handle the reader module gets from open() / gzip.open(), counting the lines it is asked for."""
+
+    def __init__(self, h):
+        self.h = h
+        self.pulled = 0
+
+    def __iter__(self):
+        return self
+
+    def __next__(self):
+        line = next(self.h)
+        self.pulled += 1
+        return line
+
+    def readline(self, *a):
+        line = self.h.readline(*a)
+        if line:
+            self.pulled += 1
+        return line
+
+    def read(self, *a):
+        t = self.h.read(*a)
+        self.pulled += len(filecases.physical_lines(t))
+        return t
+
+    def readlines(self, *a):
+        ls = self.h.readlines(*a)
+        self.pulled += len(ls)
+        return ls
+
+    def close(self):
+        self.h.close()
+
+    def __enter__(self):
+        return self
+
+    def __exit__(self, *a):
+        self.close()
+
+    def __getattr__(self, n):
+        return getattr(self.h, n)
+
+
+class CountingOpen:
+    """While active, maflib.reader's open() and gzip.open() hand out CountingHandles (kept in self.handles)."""
+
+    def __enter__(self):
+        import builtins
+        import gzip
+        import maflib.reader as R
+        self.R, self.handles = R, []
+        outer = self
+
+        class GzipProxy:
+            def open(self, *a, **kw):
+                h = CountingHandle(gzip.open(*a, **kw))
+                outer.handles.append(h)
+                return h
+
+            def __getattr__(self, n):
+                return getattr(gzip, n)
+
+        def counting_open(*a, **kw):
+            h = CountingHandle(builtins.open(*a, **kw))
+            outer.handles.append(h)
+            return h
+        self.saved_gzip = R.gzip
+        R.gzip = GzipProxy()
+        R.open = counting_open
+        return self
+
+    def __exit__(self, *a):
+        self.R.gzip = self.saved_gzip
+        del self.R.open
+
+
+READER_SOURCES = ["iter", "iterable", "path", "gz"]
+
+
 # ---- one eval_* per kind of case, shared by the *_cases generators and replay_case; each returns (info, failures)
-def eval_reader(lines):
-    """A reader over an instrumented line iterator: how many lines it has pulled after construction and after every record.
+def eval_reader(lines, via="iter", consume="next", mode=None, text=None, given=None, given_norestrict=None):
+    """A reader over an instrumented line source: how many lines it has pulled after construction and after every record.
+
+    `via`: "iter" / "iterable" = MafReader(lines=<counting iterator / iterable over `lines`>), "path" / "gz" =
+    MafReader.reader_from(<plain / gzip file holding `text`>) with the handle instrumented (the lines are then the physical
+    lines of the text); `consume`: "next" = next(reader), "for" / "iter" = next() on iter(reader), which is what a for loop
+    does; `mode` a stringency name or None; a scheme may be given.
     info["completed"] is False when the reader could not be constructed or was already too eager when constructed."""
+    import shutil
+    import tempfile
     from maflib.reader import MafReader
-    src = CountingIter(lines)
-    info = {"completed": False, "init_exc": None, "pulled_after_init": None, "steps": []}
+    info = {"completed": False, "init_exc": None, "pulled_after_init": None, "steps": [], "exc": None, "observed": True}
+    req = {"mode": mode, "given": given, "given_norestrict": given_norestrict}
+    scheme = filecases.given_scheme(req)
+    on_disk = via in ("path", "gz")
+    if on_disk:
+        lines = filecases.physical_lines(text)
+    how = {"via": via, "consume": consume, "mode": mode}
+    how.update({k: v for k, v in (("text", text if on_disk else None), ("given", given), ("given_norestrict", given_norestrict)) if v is not None})
+    tmp = tempfile.mkdtemp(prefix="verif_c19_") if on_disk else None
+    rd = None
     try:
-        rd = MafReader(lines=src, validation_stringency=None)
-    except Exception as e:  # noqa
-        info["init_exc"] = exc_name(e)
-        return info, []
-    k = 0
-    stripped = [l.rstrip("\r\n") for l in lines]
-    while k < len(stripped) and stripped[k].startswith("#"):
-        k += 1
-    info["header_lines"] = k
-    info["pulled_after_init"] = src.pulled
-    where = {"lines": [l[:40] for l in lines], "header_lines": k, "input_lines": list(lines)}
-    # after construction: header lines, the column line and one look-ahead
-    if src.pulled > k + 2:
-        return info, [dict(where, what="constructing the reader pulled %d lines (header %d + column line + 1 look-ahead allowed)" % (src.pulled, k),
-                           kind="reader-eager")]
-    failures = []
-    returned = 0
-    try:
-        while True:
-            rd.__next__()
-            returned += 1
-            bound = (k + 1) + returned + 1
-            info["steps"].append((returned, src.pulled, bound))
-            if src.pulled > bound:
-                failures.append(dict(where, what="after returning record %d the reader had pulled %d lines (> %d)" % (returned, src.pulled, bound),
-                                     kind="reader-eager"))
-                break
-    except StopIteration:
-        pass
-    info["completed"] = True
-    return info, failures
+        try:
+            if on_disk:
+                with CountingOpen() as co:
+                    rd = MafReader.reader_from(filecases.write_file(tmp, text, via == "gz"), validation_stringency=impl.MODES[mode], scheme=scheme)
+                if len(co.handles) != 1:
+                    info["observed"] = False          # the file was not opened through open() / gzip.open(): nothing to count
+                    return info, []
+                src = co.handles[0]
+            else:
+                src = CountingIter(lines) if via == "iter" else CountingIterable(lines)
+                rd = MafReader(lines=src, validation_stringency=impl.MODES[mode], scheme=scheme)
+        except Exception as e:  # noqa
+            info["init_exc"] = exc_name(e)
+            return info, []
+        k = 0
+        stripped = [l.rstrip("\r\n") for l in lines]
+        while k < len(stripped) and stripped[k].startswith("#"):
+            k += 1
+        info["header_lines"] = k
+        info["pulled_after_init"] = src.pulled
+        where = dict({"lines": [l[:40] for l in lines], "header_lines": k, "input_lines": list(lines)}, **how)
+        # after construction: header lines, the column line and one look-ahead
+        if src.pulled > k + 2:
+            return info, [dict(where, what="constructing the reader pulled %d lines (header %d + column line + 1 look-ahead allowed)" % (src.pulled, k),
+                               kind="reader-eager")]
+        failures = []
+        returned = 0
+        it = rd if consume == "next" else iter(rd)
+        try:
+            while True:
+                next(it)
+                returned += 1
+                bound = (k + 1) + returned + 1
+                info["steps"].append((returned, src.pulled, bound))
+                if src.pulled > bound:
+                    failures.append(dict(where, what="after returning record %d the reader had pulled %d lines (> %d)" % (returned, src.pulled, bound),
+                                         kind="reader-eager"))
+                    break
+        except StopIteration:
+            pass
+        except Exception as e:  # noqa   (format exception in Strict mode, ordering error: the reading ends there)
+            info["exc"] = exc_name(e)
+        info["completed"] = True
+        return info, failures
+    finally:
+        try:
+            if rd is not None:
+                rd.close()
+        except Exception:  # noqa
+            pass
+        if tmp:
+            shutil.rmtree(tmp, ignore_errors=True)
 
 
 def eval_writer(typed, header, nrec):
@@ -95,16 +233,31 @@ def eval_writer(typed, header, nrec):
     return info, failures
 
 
-def eval_overlap(n_inputs, contigs, by_barcodes, items):
-    """Overlap iteration over instrumented inputs (a configuration of C11): pulls per input against records emitted."""
+def fasta_index_file(tmp, contigs):
+    import os
+    fai = os.path.join(tmp, "ref.fa.fai")
+    with open(fai, "w") as h:
+        h.write("".join("%s\t1000\t%d\t60\t61\n" % (c, 10 + 2000 * j) for j, c in enumerate(contigs)))
+    return fai
+
+
+def eval_overlap(n_inputs, contigs, by_barcodes, items, fasta=False):
+    """Overlap iteration over instrumented inputs (a configuration of C11): pulls per input against records emitted.
+    `fasta`: the contig order is given by a FASTA index file instead of a list."""
+    import shutil
+    import tempfile
     from maflib.overlap_iter import LocatableOverlapIterator
     inputs = c11.build_inputs(n_inputs, contigs, by_barcodes, items)
     srcs = [CountingIter(inp) for inp in inputs]
     config = {"n_inputs": n_inputs, "contigs": contigs, "by_barcodes": by_barcodes, "items": [list(x) for x in items]}
+    if fasta and contigs:
+        config["fasta_index"] = True
     info = {"inputs": inputs, "steps": 0, "pulled": None, "emitted": None, "exc": None}
     failures = []
+    tmp = tempfile.mkdtemp(prefix="verif_c19_") if (fasta and contigs) else None
     try:
-        it = LocatableOverlapIterator(srcs, contigs=contigs, by_barcodes=by_barcodes)
+        it = (LocatableOverlapIterator(srcs, fasta_index=fasta_index_file(tmp, contigs), by_barcodes=by_barcodes) if tmp else
+              LocatableOverlapIterator(srcs, contigs=contigs, by_barcodes=by_barcodes))
         emitted = [0] * len(inputs)
         bad = None
         if any(s.pulled > 1 for s in srcs):
@@ -127,6 +280,90 @@ def eval_overlap(n_inputs, contigs, by_barcodes, items):
     except Exception as e:  # noqa
         info["exc"] = exc_name(e)
         failures.append({"what": "overlap iteration failed: %s" % exc_name(e), "kind": "exception", "config": config})
+    finally:
+        if tmp:
+            shutil.rmtree(tmp, ignore_errors=True)
+    return info, failures
+
+
+RELS = ["Equality", "Intersects", "Subset"]
+ALTS = [[], ["C"], ["G"], ["C", "G"], ["G", "C"], ["C", "G", "T"], ["T"]]
+
+
+def alleles_by(aseed):
+    """Reference / alternate alleles of record `rid`, fixed by the seed of the case."""
+    def alleles(rid):
+        import random
+        r = random.Random(aseed * 1000 + rid)
+        return r.choice(["A", "A", "AT"]), tuple(r.choice(ALTS))
+    return alleles
+
+
+def overlap_sets(inputs, contigs, by_barcodes):
+    """The positional overlap sets of the inputs (connected components of the overlap graph) in the order in which they
+    are due (documented order of their smallest member), each as {record id: input index}."""
+    order = "BarcodesAndCoordinate" if by_barcodes else "Coordinate"
+    byid = {x.rid: (x, k) for k, inp in enumerate(inputs) for x in inp}
+    cmp_rec = functools.cmp_to_key(lambda a, b: expected_cmp(c11.loc_of(a), c11.loc_of(b), order, contigs or []))
+    firsts = [(min((byid[r][0] for r in comp), key=cmp_rec), comp) for comp in c11.components(inputs, by_barcodes)]
+    firsts.sort(key=lambda p: cmp_rec(p[0]))
+    return [{r: byid[r][1] for r in comp} for _m, comp in firsts]
+
+
+def eval_allele(n_inputs, contigs, by_barcodes, items, rel, aseed, fasta=False):
+    """Allele-aware overlap iteration (relation `rel`) over instrumented inputs: after every sub-group handed out, input i
+    has been pulled at most (its records in the overlap sets up to the one the sub-group comes from) + 1 times.
+    `fasta`: the contig order is given by a FASTA index file instead of a list."""
+    import shutil
+    import tempfile
+    from maflib.overlap_iter import AlleleOverlapType, LocatableByAlleleOverlapIterator
+    inputs = c11.build_inputs(n_inputs, contigs, by_barcodes, items, alleles=alleles_by(aseed))
+    srcs = [CountingIter(inp) for inp in inputs]
+    config = {"n_inputs": n_inputs, "contigs": contigs, "by_barcodes": by_barcodes, "items": [list(x) for x in items],
+              "relation": rel, "allele_seed": aseed, "fasta_index": bool(fasta and contigs)}
+    info = {"inputs": inputs, "steps": [], "pulled": None, "exc": None}
+    failures = []
+    sets = overlap_sets(inputs, contigs, by_barcodes)
+    where = {rid: p for p, comp in enumerate(sets) for rid in comp}
+    cum = []                                  # cum[p][i]: records of input i in the overlap sets 0..p
+    tot = [0] * len(inputs)
+    for comp in sets:
+        for rid, k in comp.items():
+            tot[k] += 1
+        cum.append(list(tot))
+    tmp = tempfile.mkdtemp(prefix="verif_c19_") if (fasta and contigs) else None
+    try:
+        kw = {"fasta_index": fasta_index_file(tmp, contigs)} if tmp else {"contigs": contigs}
+        it = LocatableByAlleleOverlapIterator(srcs, by_barcodes=by_barcodes, overlap_type=AlleleOverlapType[rel], **kw)
+        bad = None
+        if any(s.pulled > 1 for s in srcs):
+            bad = "construction pulled more than one record from an input"
+        info["pulled_after_init"] = [s.pulled for s in srcs]
+        steps = 0
+        for g in it:
+            steps += 1
+            ids = [r.rid for slot in g for r in slot]
+            if not ids:
+                break
+            p = max(where[r] for r in (([r.rid for r in g[0]]) or ids))
+            allowed = [c + 1 for c in cum[p]]
+            info["steps"].append((steps, [[r.rid for r in slot] for slot in g], [s.pulled for s in srcs], allowed))
+            for i, s in enumerate(srcs):
+                if s.pulled > allowed[i]:
+                    bad = bad or ("after sub-group %d (overlap set %d of %d) input %d had been pulled %d times; its records in the overlap sets so far: %d (+ 1 look-ahead allowed)" % (
+                        steps, p + 1, len(sets), i, s.pulled, cum[p][i]))
+            if bad or steps > 300:
+                break
+        info["pulled"] = [s.pulled for s in srcs]
+        if bad:
+            failures.append({"what": "allele-aware overlap iteration is not incremental: " + bad, "kind": "allele-eager",
+                             "inputs": [["%r ref=%s alts=%s" % (x, x.ref, x.alts) for x in inp] for inp in inputs], "config": config})
+    except Exception as e:  # noqa
+        info["exc"] = exc_name(e)
+        failures.append({"what": "allele-aware overlap iteration failed: %s" % exc_name(e), "kind": "allele-exception", "config": config})
+    finally:
+        if tmp:
+            shutil.rmtree(tmp, ignore_errors=True)
     return info, failures
 
 
@@ -166,6 +403,66 @@ def reader_cases(ctx, out, rng):
         if info["completed"]:
             out.nontrivial.add(("reader", repr(lines)))
     out.distribution["reader"] += 1
+
+
+GIVEN_NAMES = [["c1", "c2", "c3", "c4"], ["a", "b", "c", "d"]]
+
+
+def reader_factory_cases(ctx, out, rng):
+    """Every line source (iterator, iterable, plain file, gzip file) x consumption style (next(reader), for / iter) x declared
+    order (none, Unsorted, Unknown, Coordinate, BarcodesAndCoordinate, with / without contig list) x stringency x scheme given or not."""
+    for _ in range(ctx.scale(300, 3000)):
+        k = rng.random()
+        if k < 0.5:
+            lines = c16.gen_ordered_file(rng)            # declares a sortable order over a body that (mostly) follows it
+            if rng.random() < 0.3:
+                lines = [l for l in lines if not l.startswith("#sort.order")]
+                lines.insert(1, "#sort.order " + rng.choice(["Unsorted", "Unknown"]))
+        else:
+            ann = rng.choice([None, "gdc-1.0.0"])
+            lines = filecases.whole_file(rng, ann, sort=rng.choice([None, "Coordinate", "BarcodesAndCoordinate", "Unsorted", "Unknown"]),
+                                         contigs=rng.choice([None, None, ["1", "2", "10", "X"]]), n_data=rng.randrange(0, 7), col=rng.random() < 0.95)
+            if rng.random() < 0.3:
+                lines = filecases.with_empty_lines(rng, lines)
+        via = rng.choice(READER_SOURCES)
+        kw = {"via": via, "consume": rng.choice(["next", "for", "for", "iter"]), "mode": rng.choice([None, "Silent", "Silent", "Lenient", "Strict"])}
+        if via in ("path", "gz"):
+            kw["text"] = filecases.text_of(rng, lines)
+            if not filecases.encodable(kw["text"]):
+                continue
+        g = rng.random()
+        if g < 0.08:
+            kw["given"] = "gdc-1.0.0"
+        elif g < 0.16:
+            kw["given_norestrict"] = rng.choice(GIVEN_NAMES)
+        out.evaluations += 1
+        info, failures = eval_reader(lines, **kw)
+        out.failures += failures
+        if not info["observed"]:
+            out.distribution["reader:handle-not-observed"] += 1
+        if info["completed"]:
+            out.nontrivial.add(("reader", repr(lines), repr(sorted((k, v) for k, v in kw.items() if k != "text"))))
+            out.distribution["reader:%s/%s" % (via, "next(reader)" if kw["consume"] == "next" else "iter(reader)")] += 1
+            if len(info["steps"]) >= 3 and c16.declared(lines)["order"]:
+                out.distribution["reader:sortable order, >= 3 records returned"] += 1
+
+
+def allele_cases(ctx, out, rng):
+    """The allele-aware iterator: C11's configurations x every AlleleOverlapType x by_barcodes, contig order by list or FASTA index."""
+    for _ in range(ctx.scale(300, 3000)):
+        n_inputs, contigs, by_barcodes, items = c11.gen_config(rng, 7)
+        rel = rng.choice(RELS)
+        out.evaluations += 1
+        info, failures = eval_allele(n_inputs, contigs, by_barcodes, items, rel, rng.randrange(10**6), fasta=rng.random() < 0.25)
+        out.failures += failures
+        out.nontrivial.add(("allele", repr(info["inputs"]), rel, by_barcodes))
+        out.distribution["allele:%s/%s" % (rel, "by_barcodes" if by_barcodes else "by_coordinate")] += 1
+        if contigs and rng.random() < 0.5:         # the plain iterator with the contig order read from a FASTA index
+            out.evaluations += 1
+            info, failures = eval_overlap(n_inputs, contigs, by_barcodes, items, fasta=True)
+            out.failures += failures
+            out.nontrivial.add(("overlap-fasta", repr(info["inputs"])))
+            out.distribution["overlap:fasta_index"] += 1
 
 
 def writer_cases(ctx, out, rng):
@@ -222,9 +519,18 @@ def run(ctx):
     writer_cases(ctx, out, rng)
     overlap_cases(ctx, out, rng)
     sorter_cases(ctx, out, rng)
-    out.sample({"reader_bound": "pulled <= (#header lines + 1) + returned + 1", "overlap_bound": "pulled_i <= emitted_i + 1",
+    # own streams: the cases above are unchanged
+    reader_factory_cases(ctx, out, ctx.rng("c19", "reader-factories"))
+    allele_cases(ctx, out, ctx.rng("c19", "allele"))
+    out.rule += ("; readers over every line source (counting iterator / iterable, plain and .gz file with the handle instrumented) x next(reader) / for-iter consumption x "
+                 "declared order none / Unsorted / Unknown / Coordinate / BarcodesAndCoordinate (bodies that follow the order, so that iteration goes on) x stringency x scheme given or not; "
+                 "the allele-aware overlap iterator for every AlleleOverlapType x by_barcodes, contig order by list or FASTA index, bounded by the overlap sets handed out so far")
+    out.sample({"reader_bound": "pulled <= (#header lines + 1) + returned + 1", "overlap_bound": "pulled_i <= emitted_i + 1", "allele_bound": "pulled_i <= (records of input i in the overlap sets handed out from so far) + 1",
                 "sorter_bound": "added - spilled < capacity", "writer": "line emitted when write() returns"})
     return out
+
+
+INPUT_KEYS = ("input_lines", "via", "consume", "mode", "text", "given", "given_norestrict", "config", "header", "typed", "records", "capacity", "always_spill", "keys")
 
 
 def replay_case(ctx, failure):
@@ -237,14 +543,29 @@ def replay_case(ctx, failure):
         lines = f.get("input_lines")
         if not isinstance(lines, list):
             return None              # old files hold the lines truncated to 40 characters
-        print("executed: MafReader(lines=<counting iterator over %d lines>, validation_stringency=None), then __next__() until StopIteration" % len(lines))
-        info, failures = eval_reader(lines)
-        if info["init_exc"]:
+        kw = {k: f[k] for k in ("via", "consume", "mode", "text", "given", "given_norestrict") if k in f}
+        via, style = kw.get("via", "iter"), kw.get("consume", "next")
+        if via not in READER_SOURCES or (via in ("path", "gz") and not isinstance(kw.get("text"), str)):
+            return None
+        print("executed: %s, validation_stringency=%s%s), then %s until StopIteration" % (
+            {"iter": "MafReader(lines=<counting iterator over %d lines>" % len(lines), "iterable": "MafReader(lines=<counting iterable over %d lines>" % len(lines),
+             "path": "MafReader.reader_from(<plain file, %d physical lines, handle instrumented>" % len(lines),
+             "gz": "MafReader.reader_from(<.gz file, %d physical lines, handle instrumented>" % len(lines)}[via], kw.get("mode"),
+            ", scheme=<%s>" % kw["given"] if "given" in kw else ", scheme=NoRestrictionsScheme(%s)" % kw["given_norestrict"] if "given_norestrict" in kw else "",
+            "next(reader)" if style == "next" else "next() on iter(reader) (a for loop)"))
+        for n, l in enumerate(lines[:10], start=1):
+            print("  line %d: %r" % (n, l[:80]))
+        info, failures = eval_reader(lines, **kw)
+        if not info["observed"]:
+            print("implementation: the file was not opened through open() / gzip.open() of maflib.reader (nothing to count)")
+        elif info["init_exc"]:
             print("implementation: constructing the reader raised %s (nothing to judge)" % info["init_exc"])
         else:
             print("implementation: %d header line(s); %d line(s) pulled by the constructor (allowed %d)" % (info["header_lines"], info["pulled_after_init"], info["header_lines"] + 2))
             for returned, pulled, bound in info["steps"][:12]:
                 print("implementation: after record %d: %d line(s) pulled (allowed %d)" % (returned, pulled, bound))
+            if info["exc"]:
+                print("implementation: reading ended with %s" % info["exc"])
     elif kind == "writer-deferred":
         if not (isinstance(f.get("header"), list) and isinstance(f.get("typed"), bool) and isinstance(f.get("records"), int)):
             return None
@@ -260,12 +581,28 @@ def replay_case(ctx, failure):
         items = [tuple(x) for x in c["items"]]
         print("executed: LocatableOverlapIterator over %d counting input(s), contigs=%s, by_barcodes=%s, items (tumor, normal, chrom, start, end, input)=%s" % (
             c["n_inputs"], c["contigs"], c["by_barcodes"], items))
-        info, failures = eval_overlap(c["n_inputs"], c["contigs"], c["by_barcodes"], items)
+        info, failures = eval_overlap(c["n_inputs"], c["contigs"], c["by_barcodes"], items, fasta=bool(c.get("fasta_index")))
         if info["exc"]:
             print("implementation: raised %s" % info["exc"])
         else:
             print("implementation: pulled per input after construction %s; after %d group(s): pulled %s, emitted %s (allowed pulled_i <= emitted_i + 1)" % (
                 info.get("pulled_after_init"), info["steps"], info["pulled"], info["emitted"]))
+    elif kind in ("allele-eager", "allele-exception"):
+        c = f.get("config")
+        if not isinstance(c, dict) or not all(x in c for x in ("n_inputs", "contigs", "by_barcodes", "items", "relation", "allele_seed")) or c["relation"] not in RELS:
+            return None
+        items = [tuple(x) for x in c["items"]]
+        print("executed: LocatableByAlleleOverlapIterator over %d counting input(s), %s, by_barcodes=%s, overlap_type=%s, items (tumor, normal, chrom, start, end, input)=%s" % (
+            c["n_inputs"], "fasta_index=<file listing %s>" % c["contigs"] if c.get("fasta_index") else "contigs=%s" % c["contigs"], c["by_barcodes"], c["relation"], items))
+        info, failures = eval_allele(c["n_inputs"], c["contigs"], c["by_barcodes"], items, c["relation"], c["allele_seed"], fasta=bool(c.get("fasta_index")))
+        for k, inp in enumerate(info["inputs"]):
+            print("  input %d: %s" % (k, " ".join("%r[%s>%s]" % (x, x.ref, "/".join(x.alts)) for x in inp) or "(empty)"))
+        if info["exc"]:
+            print("implementation: raised %s" % info["exc"])
+        else:
+            print("implementation: pulled per input after construction %s" % info.get("pulled_after_init"))
+            for step, ids, pulled, allowed in info["steps"][:12]:
+                print("implementation: sub-group %d = record ids %s; pulled per input %s (allowed %s)" % (step, ids, pulled, allowed))
     elif kind == "sorter-not-spilling":
         keys = f.get("keys")
         if not (isinstance(keys, list) and isinstance(f.get("capacity"), int) and "always_spill" in f):
@@ -280,6 +617,10 @@ def replay_case(ctx, failure):
         print("oracle: [%s] %s" % (g["kind"], g["what"]))
     if not failures:
         print("oracle: satisfied (the bound holds after every step)")
+        print("the stored input alone satisfies the property; the failure may depend on what the process did before it (state kept between calls):")
+        failures = filecases.rerun_in_fresh_process("C19", failure, INPUT_KEYS)
+        for g in failures[:1]:
+            print("oracle (in the re-run): %s" % g["what"])
     return failures
 
 
